@@ -52,7 +52,7 @@ func init() {
 			Gen:   genParams{NBlob: 12, NTree: 14, NCommit: 12, NTag: 5, MaxEnt: 4, MaxBlob: 300, Merges: true, RootKinds: "mixed"},
 			Fails: scanFails["C01"],
 			Extra: wideCases("c01"),
-			Rule: "TLC family Mixed (<=2 blobs, 2 trees, 2 commits, 1 tag; roots of every kind, walked or not, references or ROOT arguments) x all delivery orders, every behaviour replayed into sizes.Graph; plus materialised repositories (TLC graphs and random graphs with merges, shared subtrees, tags of anything, noise, unselected refs, ROOT arguments) scanned by the binary; distinct = distinct (graph, roots, order) / (graph, arguments)",
+			Rule:  "TLC family Mixed (<=2 blobs, 2 trees, 2 commits, 1 tag; roots of every kind, walked or not, references or ROOT arguments) x all delivery orders, every behaviour replayed into sizes.Graph; plus materialised repositories (TLC graphs and random graphs with merges, shared subtrees, tags of anything, noise, unselected refs, ROOT arguments) scanned by the binary; distinct = distinct (graph, roots, order) / (graph, arguments)",
 		}
 		if !quick(c) {
 			big := mixed
@@ -75,7 +75,7 @@ func init() {
 			NRandom: 50, MaxTraces: 50,
 			Gen:   genParams{NBlob: 10, NTree: 10, NCommit: 10, NTag: 3, MaxEnt: 5, MaxBlob: 40, Merges: true, RootKinds: "refs"},
 			Fails: scanFails["C02"],
-			Rule: "TLC families Commits (all DAGs, tied sizes) and Trees (tied blob sizes) x all orders, so the maximal object is first/middle/last and tied; random repositories with few distinct sizes; distinct = distinct (graph, order) / (graph, arguments)",
+			Rule:  "TLC families Commits (all DAGs, tied sizes) and Trees (tied blob sizes) x all orders, so the maximal object is first/middle/last and tied; random repositories with few distinct sizes; distinct = distinct (graph, order) / (graph, arguments)",
 		}
 		if !quick(c) {
 			cm4 := cm
@@ -97,7 +97,7 @@ func init() {
 			NRandom: 40, MaxTraces: 60,
 			Gen:   genParams{NBlob: 3, NTree: 4, NCommit: 16, NTag: 8, MaxEnt: 2, MaxBlob: 20, Merges: true, RootKinds: "refs"},
 			Fails: scanFails["C03"],
-			Rule: "TLC families Commits (all DAGs on <=4 commits x all parents-first orders) and Tags (all forests on <=3 tags x all orders), replayed into sizes.Graph; every DAG also materialised with permuted timestamps and scanned by the binary; distinct = distinct (graph, order) / (graph, dates)",
+			Rule:  "TLC families Commits (all DAGs on <=4 commits x all parents-first orders) and Tags (all forests on <=3 tags x all orders), replayed into sizes.Graph; every DAG also materialised with permuted timestamps and scanned by the binary; distinct = distinct (graph, order) / (graph, dates)",
 		}
 		if !quick(c) {
 			cm5 := cm
@@ -146,7 +146,7 @@ func init() {
 			Gen:   genParams{NBlob: 8, NTree: 18, NCommit: 4, NTag: 2, MaxEnt: 5, MaxBlob: 200, Merges: false, RootKinds: "mixed", SpecialNames: true},
 			Fails: scanFails["C04"],
 			Extra: wideCases("c04"),
-			Rule: "TLC family Trees (all DAGs of pairwise distinct trees, entries file/link/submodule/subtree, names of different lengths, stray trees as roots) x all delivery orders: every finalized tree must equal its recursive expansion on 7 dimensions; random tree DAGs with sharing, repetition, empty trees and odd names scanned by the binary; distinct = distinct (graph, order) / (graph, arguments)",
+			Rule:  "TLC family Trees (all DAGs of pairwise distinct trees, entries file/link/submodule/subtree, names of different lengths, stray trees as roots) x all delivery orders: every finalized tree must equal its recursive expansion on 7 dimensions; random tree DAGs with sharing, repetition, empty trees and odd names scanned by the binary; distinct = distinct (graph, order) / (graph, arguments)",
 		}
 		if !quick(c) {
 			t3 := tr
@@ -173,7 +173,7 @@ func init() {
 			NRandom: 0, MaxTraces: 40, Relational: true,
 			Fails: scanFails["C09"],
 			Extra: wideCases("c09"),
-			Rule: "every delivery order (all permutations of trees, tags, blobs; all parents-first commit orders) of every graph of the TLC families Trees, Tags, Commits replayed into sizes.Graph: all orders of one graph must agree and equal the oracle; the same graphs materialised with permuted dates, root order and storage layouts must give identical numbers; distinct = distinct (graph, order) / (graph, layout)",
+			Rule:  "every delivery order (all permutations of trees, tags, blobs; all parents-first commit orders) of every graph of the TLC families Trees, Tags, Commits replayed into sizes.Graph: all orders of one graph must agree and equal the oracle; the same graphs materialised with permuted dates, root order and storage layouts must give identical numbers; distinct = distinct (graph, order) / (graph, layout)",
 		}
 		if !quick(c) {
 			t3 := tr
@@ -238,4 +238,3 @@ func init() {
 		runScanProfile(c, p)
 	}
 }
-
